@@ -116,6 +116,10 @@ def dictGetE {κ ν : Type} (d : Dict κ ν) (k : κ) : Except Err ν :=
   | none => .error .key
   | some v => .ok v
 
+/-- a dict display as an association list in display order: a later entry of the same key wins -/
+def tableGet {κ ν : Type} [DecidableEq κ] (t : List (κ × ν)) (k : κ) : Option ν :=
+  (t.reverse.find? (fun e => decide (e.1 = k))).map (·.2)
+
 /-! ### loops -/
 
 /-- `range(a, b)` -/
